@@ -11,7 +11,10 @@ RULE = ("programs with one fault (抛出, 1/0, undefined name, index out of rang
         "line, the call that never began has no entry; a 每当 loop whose condition can no longer be evaluated on its second or third pass — "
         "the line is the loop's; a failing library function after 导入《@JSON》 — the library's frame is shown as built-in code; a type / "
         "method / constructor declaration that fails while the declarations of its block are executed ahead of the other statements: failing "
-        "property default, a name declared twice, a constructor for a name that is no type — the line is the declaration's) planted at a "
+        "property default, a name declared twice, a constructor for a name that is no type — the line is the declaration's; a statement that "
+        "is a BARE member expression `变量之不存在` on a list / text / object / number value or `其不存在` in the body of an object method "
+        "or a constructor, and the same member expressions as the failing part of a larger statement whose earlier parts span lines — the "
+        "line is the statement's) planted at a "
         "known line inside a chain of 0–4 nested calls, inside branches/loops, after earlier handled exceptions (stale frames must not "
         "appear: 1–3 episodes of 1–5 calls — methods, object methods, constructors — with 1–4 handlers of which all but the outermost "
         "raise again by 抛出 of the same / another type, a runtime fault, a failing call or built-in, handlers that handle another failing "
@@ -63,9 +66,13 @@ class F:
     error has to point at), the expected last entry of the chain after that line (`native` for built-in / library code, else nothing),
     definitions the program needs at top level, import lines, and the kind (for the evidence counts)"""
 
-    def __init__(self, stmt, tail=None, pre=(), defs=(), imports=(), kind='plain', bare=False):
+    def __init__(self, stmt, tail=None, pre=(), defs=(), imports=(), kind='plain', bare=False, inner=None, in_ctor=False):
         self.stmt, self.tail, self.pre, self.defs, self.imports, self.kind = stmt, tail, list(pre), list(defs), list(imports), kind
         self.bare = bare    # has to stand directly in the body of its method / of the program (declarations: only there are they executed)
+        # `inner`: a statement inside one of `defs` (an object method that `stmt` calls) where the error really arises: `stmt` is then one
+        # more active call (its line is a call-site line) and the chain ends at the line of `inner`
+        self.inner = inner
+        self.in_ctor = in_ctor  # the statement reads 其: the body it stands in has to be a constructor (如何新建型i？)
 
 
 def shown(rng, e):
@@ -151,17 +158,84 @@ def fault_declaration(g, rng):
     return F(Func('无此型%d' % u, [], [ExprS(Call('显示', [Str('建')]))], ctor=True), kind='declaration-constructor-of-nothing', bare=True)
 
 
+def member_holder(g, rng):
+    """a value without the member 不存在…: (expression, definitions it needs, what it is)"""
+    k = rng.random()
+    if k < 0.3:
+        return Arr([Num('1'), Num('2')]), [], 'list'
+    if k < 0.55:
+        return Str(rng.choice(['文', '', '甲乙'])), [], 'text'
+    if k < 0.85:
+        cname = '员型%d' % g.fresh()
+        return New(cname, []), [Class(cname, [('名', Str('型'))], [])], 'object'
+    if k < 0.93:
+        return Dict([(Str('a'), Num('1'))]), [], 'dictionary'
+    return Num(str(rng.randint(0, 9))), [], 'number'
+
+
+def spread(rng, bad):
+    """a statement whose LAST part is the failing expression `bad` and whose earlier parts span physical lines: the error belongs to
+    the line the statement starts on"""
+    k = rng.random()
+    t = Str(rng.choice(['上\n下', '一\n二\n三', '末\n']))
+    if k < 0.4:
+        return ExprS(Call('显示', [t, bad]))
+    if k < 0.7:
+        return Decl(['得%d' % rng.randint(100, 999)], Arr([Num('1'), t, bad]))
+    if k < 0.85:
+        return ExprS(Call('显示', [Arr([t, Num('2')]), Bin('+', Num('1'), bad)]))
+    return Decl(['得%d' % rng.randint(100, 999)], Dict([(Str('a'), t), (Str('b'), bad)]))
+
+
+def fault_member(g, rng):
+    """(g) a member expression that fails (no such member).  As a statement of its own — `变量之不存在`, `其不存在` — the node that is
+    executed IS the member expression: the error belongs to its line (the parser used to leave that line 0: reported as line 1).  As
+    the last part of a statement whose earlier parts span lines: the statement's line."""
+    name = rng.choice(['不存在', '无此项', '无此属性'])
+    dot = rng.choice(['之', '之', '的'])
+    k = rng.random()
+    if k < 0.5:
+        # `变量之不存在`
+        v = '持%d' % g.fresh()
+        val, defs, what = member_holder(g, rng)
+        bad = Prop(Var(v), name, dot)
+        if rng.random() < 0.6:
+            return F(ExprS(bad), pre=[Decl([v], val)], defs=defs, kind='member-bare-of-' + what)
+        return F(spread(rng, bad), pre=[Decl([v], val)], defs=defs, kind='member-spread-of-' + what)
+    bad = This(name)
+    stmt = ExprS(bad) if rng.random() < 0.6 else spread(rng, bad)
+    form = 'bare' if isinstance(stmt, ExprS) and stmt.e is bad else 'spread'
+    if k < 0.85:
+        # `其不存在` in the body of an object method: the statement that calls the method is one more active call
+        cname = '属型%d' % g.fresh()
+        stmt.tag = 'inner'
+        body = [filler(g, rng) for _ in range(rng.randint(0, 3))] + [stmt, ExprS(Call('显示', [Str('不达')]))]
+        if rng.random() < 0.3:
+            body = [filler(g, rng), If(Var('真'), body[:-1])] + body[-1:]
+        cls = Class(cname, [('名', Str('型'))], [Func('法', [], body)])
+        if rng.random() < 0.5:
+            v = '物%d' % g.fresh()
+            return F(ExprS(MCall(Var(v), [('法', [])])), pre=[Decl([v], New(cname, []))], defs=[cls], inner='inner',
+                     kind='member-this-%s-in-object-method' % form)
+        return F(ExprS(Call('显示', ml(rng, [MCall(New(cname, []), [('法', [])])]))), defs=[cls], inner='inner',
+                 kind='member-this-%s-in-object-method' % form)
+    # … in the body of a constructor (the new object is 其 there)
+    return F(stmt, in_ctor=True, kind='member-this-%s-in-constructor' % form)
+
+
 def fault(g, rng):
     k = rng.random()
     if k < 0.12:
         return fault_arity(g, rng)
-    if k < 0.19:
+    if k < 0.24:
+        return fault_member(g, rng)
+    if k < 0.31:
         return fault_not_method(g, rng)
-    if k < 0.28:
+    if k < 0.40:
         return fault_while_cond(g, rng)
-    if k < 0.35:
+    if k < 0.47:
         return fault_library(g, rng)
-    if k < 0.45:
+    if k < 0.57:
         return fault_declaration(g, rng)
     k = rng.random()
     if k < 0.25:
@@ -236,6 +310,13 @@ def gen(g, rng):
     def call_of(i):
         return New('型%d' % (i + 1), []) if is_ctor[i] else Call(names[i], [])
     flt = fault(g, rng)
+    if flt.in_ctor:
+        # the statement reads 其: it has to stand in a constructor's body
+        if depth == 0:
+            depth = rng.randint(1, 4)
+            names = ['层%d' % i for i in range(1, depth + 1)]
+            is_ctor = [rng.random() < 0.25 for _ in range(depth)]
+        is_ctor[depth - 1] = True
     fstmt, tail = flt.stmt, flt.tail
     fstmt.tag = 'fault'
     for i in range(depth, 0, -1):
@@ -294,6 +375,7 @@ def gen(g, rng):
     p = Program([], body + main, imports=flt.imports)
     p.handled_kinds = (['episodes-%d' % len(episodes)] + sorted({k for _at, ep in episodes for k in ep.kinds})) if episodes else \
         (['plain'] if handled else [])
+    p.fault_inner = flt.inner
     return p, depth, tail, flt.kind
 
 
@@ -309,10 +391,12 @@ def run(ctx):
         p, depth, tail, kind = gen(g, rng)
         ps.append((p, {}))
         meta.append((depth, tail, kind))
-    srcs, go, model, spec = progs.run_stream(ctx, 'chain', ps,
+    # check_lines: the line a member node (x 之 p / 其 p: the member name's line; x # i: the #'s line) carries in the parsed tree is the
+    # line the generator wrote that token on — the evaluator makes exactly this line current when the node is a statement of its own
+    srcs, go, model, spec = progs.run_stream(ctx, 'chain', ps, check_lines=('member',),
                                              nontrivial=lambda src, go: '层1' in src or '多行' in src or '第二行' in src or '导入' in src
                                              or '错参' in src or '错型' in src or '法型' in src or '数甲' in src or '“文”' in src
-                                             or '败型' in src or '重名' in src or '重型' in src or '无此型' in src)
+                                             or '败型' in src or '重名' in src or '重型' in src or '无此型' in src or '持' in src or '属型' in src)
     # ground truth of the generator vs the rendered error
     wrong = []
     for (p, _), (depth, tail, kind), src, g_out in zip(ps, meta, srcs, go):
@@ -320,6 +404,8 @@ def run(ctx):
         if getattr(p, 'fault_import', None) is not None:
             tags['fault'] = p.import_lines[p.fault_import]
         exp = ['main:%d' % (tags['call_%d' % i] + 1) for i in range(depth)] + ['main:%d' % (tags['fault'] + 1)]
+        if getattr(p, 'fault_inner', None):
+            exp.append('main:%d' % (tags[p.fault_inner] + 1))
         if tail:
             exp.append(tail)
         case = 'run ' + cps(src)
@@ -333,6 +419,9 @@ def run(ctx):
             wrong.append((len(src), case, g_out, 'expected chain ' + '>'.join(exp)))
     for _n, case, g_out, exp in sorted(wrong):     # the shortest program first: it heads the replay file
         ctx.violation('chain:ground-truth', case, g_out, exp)
+    for what, case, got, want in getattr(ctx, 'node_line_mismatches', []):
+        ctx.violation(what, case, got, want)
+    ctx.node_line_mismatches = []
     # ---- the same kind of programs with a closed set of their methods / types in an imported module: every entry of the chain names
     # the module its frame runs in (main:<line> / <module>:<line>), lines counted in that module's own file -------------------------
     xs, xmeta = [], {}
@@ -353,6 +442,8 @@ def run(ctx):
                 return 'main:%d' % (mt[tag] + 1)
             return '%s:%d' % (progs.hx(progs.MODULE_NAME), dt[tag] + 1)
         exp = [where('call_%d' % i) for i in range(depth)] + [where('fault')]
+        if getattr(p, 'fault_inner', None):
+            exp.append(where(p.fault_inner))
         if tail:
             exp.append(tail)
         f = g_out.split(' ')
@@ -453,5 +544,5 @@ def run(ctx):
         p, d, t, _kind = gen(g, rng)
         if p.imports:
             continue      # the mixed renderer lays out the statement block only: programs with an import block stay in the chain stream
-        mixed.append((p, ['call_%d' % i for i in range(d)] + ['fault'], t))
+        mixed.append((p, ['call_%d' % i for i in range(d)] + ['fault'] + ([p.fault_inner] if p.fault_inner else []), t))
     c18_lineends.run_mixed(ctx, g, mixed)
